@@ -1,0 +1,59 @@
+//go:build verif
+
+// Machine-checked contracts for package recorder (comment-only, tag verif).
+
+package recorder
+
+// The recording-sink protocol as a ghost automaton per sink instance (keyed by
+// the dynamic reference behind the interface value):
+//   open     a recording is open (a successful StartRecording not yet stopped)
+//   next     sequence number the sink expects next (1 + that of the last frame written)
+//   first    sequence number of the first frame of the current/last file
+//   inFile   frames written into the current/last file
+//   starts, stops, writes   counters of successful starts, stops of an open file, frames
+//   wfault   a write of the current file failed
+//   bg, thresh   background frame / threshold given to the last successful start
+// Environment oracles (arbitrary, but stable until the corresponding call):
+//   startOK  the next StartRecording succeeds; canRec  CheckCanRecord succeeds;
+//   stopOK   the next StopRecording returns no error
+
+//@ ghost field Recorder.open bool
+//@ ghost field Recorder.next int
+//@ ghost field Recorder.first int
+//@ ghost field Recorder.inFile int
+//@ ghost field Recorder.starts int
+//@ ghost field Recorder.stops int
+//@ ghost field Recorder.writes int
+//@ ghost field Recorder.wfault bool
+//@ ghost field Recorder.bg int
+//@ ghost field Recorder.thresh int
+//@ ghost field Recorder.startOK bool
+//@ ghost field Recorder.canRec bool
+//@ ghost field Recorder.stopOK bool
+
+//@ iface (r Recorder) StartRecording(backgroundFrame, tempThresh) (err)
+//@   requires [C12] !r.open
+//@   modifies r.open, r.inFile, r.wfault, r.starts, r.startOK, r.bg, r.thresh
+//@   ensures (err == nil) == old(r.startOK)
+//@   ensures err == nil ==> r.open && r.inFile == 0 && !r.wfault && r.starts == old(r.starts) + 1 && r.bg == ref(backgroundFrame) && r.thresh == tempThresh
+//@   ensures err != nil ==> !r.open && r.inFile == old(r.inFile) && r.wfault == old(r.wfault) && r.starts == old(r.starts) && r.bg == old(r.bg) && r.thresh == old(r.thresh)
+
+//@ iface (r Recorder) WriteFrame(frame) (err)
+//@   ghostparams seq
+//@   requires [C12] r.open
+//@   modifies r.next, r.first, r.inFile, r.writes, r.wfault
+//@   ensures r.next == seq + 1 && r.inFile == old(r.inFile) + 1 && r.writes == old(r.writes) + 1
+//@   ensures r.first == (old(r.inFile) == 0 ? seq : old(r.first))
+//@   ensures r.wfault == (old(r.wfault) || err != nil)
+
+//@ iface (r Recorder) StopRecording() (err)
+//@   modifies r.open, r.stops, r.stopOK
+//@   ensures !r.open && r.stops == old(r.stops) + (old(r.open) ? 1 : 0)
+//@   ensures (err == nil) == old(r.stopOK)
+
+//@ iface (r Recorder) CheckCanRecord() (err)
+//@   ensures (err == nil) == r.canRec
+
+//@ func (conf *RecorderConfig) validate
+//@   requires conf != nil
+//@   ensures [C03] (result == nil) == (conf.MaxSecs >= conf.MinSecs)
